@@ -209,9 +209,17 @@ namespace detail
 class _CppTranslator(TranslatorBase):
     block_template = CPP_SOURCE_TEMPLATE
 
+    def _process_nodes(self, nodes, base_name):
+        self.constants = model._collect_constants(nodes)
+        return super(_CppTranslator, self)._process_nodes(nodes, base_name)
+
     def translate_enum(self, node):
         """ Enumerators sharing one value print as the last of them, as str() of the Python codec does. """
-        last = dict((m.value, m.name) for m in node.members)
+        def number(member):
+            value = member.eval_int(getattr(self, 'constants', {}))
+            return member.value if value is None else value
+
+        last = dict((number(m), m.name) for m in node.members)
         return (
                 'template <>\n' +
                 'const char* print_traits<{0}>::to_literal({0} x)\n'.format(node.name) +
@@ -220,7 +228,7 @@ class _CppTranslator(TranslatorBase):
                     'switch (x)\n' +
                     '{\n' +
                     _indent(
-                        ''.join('case {0}: return "{0}";\n'.format(m.name) for m in node.members if last[m.value] == m.name) +
+                        ''.join('case {0}: return "{0}";\n'.format(m.name) for m in node.members if last[number(m)] == m.name) +
                         'default: return 0;\n'
                     ) +
                     '}\n'
